@@ -65,7 +65,13 @@ PROPS: Dict[str, Dict[str, Any]] = {
                          "C05_knr_invalid", "C05_user", "C05_always", "C05_map_valid", "C05_map_invalid",
                          "C05_recursive_terminates", "run_mono", "Run.unique"], "stream": "core", "opts": {"salt": "c05", "gen": ["streams", "gen_wrapper_case"]},
             "quick_n": 6000, "thorough_n": 100000, "fields": ["out", "trace"]},
-    "C06": {"theorems": ["C06_agree", "C06_agree_Run", "C06_never_skipped", "seqStep_noAssert", "loopItems_agree",
+    "C06": {"modules": ["KodaModel.Properties.C06", "KodaModel.Properties.C06Sync"],
+            "level_note": "C06_agree: for every tree and fuel, when the sync call does not raise its guard error both modes return "
+                          "the same outcome; C06_sync_returns: a tree without async-only checks (afree, judged through the "
+                          "environment for Lazy) never raises the guard error in sync mode - every validator kind, any fuel",
+            "theorems": ["C06_sync_returns", "PredK_call_noassert", "recordStep_noassert", "mapStep_noassert",
+                         "ntupleStep_noassert", "unionStep_noassert", "scalarStep_noassert",
+                         "C06_agree", "C06_agree_Run", "C06_never_skipped", "seqStep_noAssert", "loopItems_agree",
                          "recordStep_agree", "unionStep_agree", "mapStep_agree", "ntupleStep_agree", "seqStep_agree",
                          "run_mono", "Run.unique"], "stream": "core", "opts": {"salt": "c06", "async_rate": 0.12},
             "quick_n": 10000, "thorough_n": 300000, "fields": ["out", "trace"]},
